@@ -193,6 +193,11 @@ func parent(id string, ck *Check, tier string) int {
 			if runWorkers(id, tier, bin, ck.SchedWorkers(tier), out2, "sched", merged) {
 				broken = true
 			}
+		} else if os.Getenv("VERIF_SCHED_SKIP") != "" && n > 0 {
+			// the tree could not be instrumented (syntax the instrumenter does not rewrite) and the scheduler plane is
+			// only one of this property's planes: the others are reported, the run is not called exhaustive
+			merged.Capped = true
+			merged.Note("the controlled-scheduler plane was skipped: the instrumenter could not rewrite the current tree (see stderr)")
 		} else {
 			fmt.Fprintln(os.Stderr, "BROKEN: scheduler binary missing")
 			broken = true
